@@ -44,7 +44,7 @@ def rule_label(ctx):
         raise AnalysisError("anchor=common._with_timeout not found")
     wt_deco, wt = p.decorator_factory_parts(wt_outer)
     wrapped = wt_deco.args.args[-1].arg if wt_deco.args.args else "f"
-    wf = [c for c in walk_no_nested(wt) if isinstance(c, ast.Call) and (dotted(c.func) or "").endswith("wait_for")]
+    wf = [c for c in walk_no_nested(wt) if isinstance(c, ast.Call) and (dotted(c.func) or "") in ("asyncio.wait_for", "wait_for")]
     ok = len(wf) == 1 and len(wf[0].args) >= 2
     if ok:
         t = expand(p, wf[0].args[1], wt)
@@ -151,7 +151,7 @@ def rule_wait(ctx):
     ctx.rule("C16.WAIT", "the guard's timeout is wait_future_timeout iff wait=True (None stays None), else 0; one wait_for, not in a loop; the data-connection wait fails with 425")
     w = p.wrapper_of("ConnectionConditions")
     conn = [a.arg for a in w.args.args][1]
-    wf = [c for c in walk_no_nested(w) if isinstance(c, ast.Call) and ((dotted(c.func) or "").endswith("wait_for") or
+    wf = [c for c in walk_no_nested(w) if isinstance(c, ast.Call) and ((dotted(c.func) or "") in ("asyncio.wait_for", "wait_for") or
                                                                       ((dotted(c.func) or "") in ("asyncio.wait", "wait") and kwarg(c, "timeout") is not None))]
     if len(wf) != 1:
         ctx.fail("C16.WAIT", w, f"the guard has {len(wf)} bounded waits (expected 1)", construct=f"wait:{len(wf)} wait_for")
@@ -249,4 +249,42 @@ def rule_cleanup(ctx):
     ctx.borrow(rule_fields, {"C12.FIELDS": "C16.CLEANUP"})
 
 
-RULES = [rule_label, rule_wire, rule_wait, rule_end, rule_cleanup]
+def rule_support(ctx):
+    p = ctx.p
+    ctx.rule("C16.SUPPORT", "what the timeout wiring relies on in its supporting code: StreamIO does not derive the general timeout from a specific one, with_timeout forwards all "
+                            "arguments, and Connection serves every session value through its futures (assignment resolves the future waiters hold; no class attribute shadows a field)")
+    si = p.method("StreamIO", "__init__")
+    re_t = [n for n in walk_no_nested(si) if isinstance(n, (ast.Assign, ast.AugAssign)) and any(isinstance(t, ast.Name) and t.id == "timeout" for t in assign_targets(n))]
+    ctx.ob("C16.SUPPORT", re_t[0] if re_t else si, "StreamIO.__init__ uses the `timeout` argument as given", not re_t,
+           f"StreamIO.__init__ rewrites the general timeout (`{src(re_t[0])[:50] if re_t else ''}`): a stream built with read_timeout=None (no idle limit) and a write timeout "
+           "gets the write timeout as read timeout - an idle control connection is dropped although idle_timeout is unset", construct="support:timeout rewritten")
+    wt_outer = p.module_funcs.get(("common.py", "_with_timeout"))
+    if wt_outer is not None:
+        deco, wr = p.decorator_factory_parts(wt_outer)
+        wrapped = deco.args.args[-1].arg if deco.args.args else "f"
+        calls = [c for c in walk_no_nested(wr) if isinstance(c, ast.Call) and isinstance(c.func, ast.Name) and c.func.id == wrapped]
+        va, kw = (wr.args.vararg.arg if wr.args.vararg else None), (wr.args.kwarg.arg if wr.args.kwarg else None)
+        for c in calls:
+            ok = any(isinstance(a, ast.Starred) and src(a.value) == va for a in c.args) and any(k.arg is None and src(k.value) == kw for k in c.keywords) if (va and kw) else False
+            ctx.ob("C16.SUPPORT", c, "with_timeout calls the wrapped function with *args and **kwargs", ok,
+                   f"with_timeout calls `{src(c)[:40]}` without all of the caller's arguments: with a timeout configured the executor backend loses mkdir(parents=, exist_ok=) and open(mode=)",
+                   construct="support:with_timeout arguments")
+    cc = p.cls("Connection")
+    shadows = [src(t) for n in cc.body if isinstance(n, ast.Assign) for t in n.targets if isinstance(t, ast.Name) and t.id != "__slots__"]
+    ctx.ob("C16.SUPPORT", cc, "Connection has no class-level attribute besides __slots__ (values are served by __getattr__ from the futures)", not shadows,
+           f"Connection defines class attributes {shadows}: __getattr__ is never asked for them, so `connection.{shadows[0] if shadows else ''}` is the class default whatever the "
+           "dispatcher stored (data streams lose their socket_timeout)", construct=f"support:Connection shadows {shadows}")
+    sa = p.methods("Connection").get("__setattr__")
+    if sa is not None:
+        sets = [c for c in walk_no_nested(sa) if isinstance(c, ast.Call) and is_method_call(c, "set_result")]
+        ok = bool(sets) and all(isinstance(c.func.value, ast.Subscript) and src(c.func.value.value) == "self" for c in sets)
+        fresh_uncond = [n for n in sa.body if False]
+        # replacing the stored future is allowed only when it is already done (nobody can still be waiting on it)
+        repl = [n for n in walk_no_nested(sa) if isinstance(n, ast.Assign) and any(isinstance(t, ast.Subscript) and src(t.value) == "self" for t in n.targets)]
+        guarded = all(any(pol and isinstance(t, ast.Call) and is_method_call(t, "done") for t, pol in all_guards(p, n, sa)) for n in repl)
+        ctx.ob("C16.SUPPORT", sa, "Connection.__setattr__ resolves the stored future (replaced only if already done)", ok and guarded,
+               "Connection.__setattr__ publishes a new future instead of resolving the stored one: a worker already waiting for the data connection holds the old future "
+               "and is answered 425 (or waits forever) although the connection was made within wait_future_timeout", construct="support:Connection.__setattr__")
+
+
+RULES = [rule_label, rule_wire, rule_wait, rule_end, rule_cleanup, rule_support]
